@@ -1,6 +1,7 @@
 // Independent reference models. Nothing in here uses a yui type.
 
 pub mod num;
+pub mod linalg;
 
 pub fn selftest() -> bool {
     true
